@@ -1095,6 +1095,18 @@ func verifC42Shapes() []verifC42Shape {
 			sh.trees = append(sh.trees, verifC42Tree{label: "R", ents: rents})
 			return sh
 		}(),
+		// two huge trees queued for the dedicated worker at the same time, the first with more
+		// sub-directories than the second (anything the worker keeps across two trees would show)
+		{name: "hugepair", conns: 1, roots: []string{"R"}, trees: []verifC42Tree{
+			{label: "A", ents: []verifC42Ent{f("a", "b1")}},
+			{label: "B", ents: []verifC42Ent{f("b", "b2")}},
+			{label: "C", ents: []verifC42Ent{f("c", "b3")}},
+			{label: "D", ents: []verifC42Ent{f("d", "b4")}},
+			{label: "E", ents: []verifC42Ent{f("e", "b5")}},
+			{label: "H1", kind: "huge", ents: []verifC42Ent{d("a", "A"), d("b", "B"), d("c", "C"), f("f", "b6")}},
+			{label: "H2", kind: "huge", ents: []verifC42Ent{d("d", "D"), d("e", "E")}},
+			{label: "R", ents: []verifC42Ent{d("h1", "H1"), d("h2", "H2")}},
+		}},
 		{name: "hugeroots", conns: 1, roots: []string{"H1", "H2"}, trees: []verifC42Tree{
 			{label: "S", ents: []verifC42Ent{f("s", "b1")}},
 			{label: "H1", kind: "huge", ents: []verifC42Ent{f("f", "b2"), d("s", "S")}},
@@ -1200,7 +1212,7 @@ func verifC42Probe(shape string) string {
 func TestVerif_C42(t *testing.T) {
 	r := vh.Start(t, "C42")
 	defer r.Finish()
-	r.Rule("GATE at the Loader: for every forged tree DAG (12 shapes, <= 7 trees), mode (find, find2, stream, check, walk) and connection count, ALL completion orders of the concurrently outstanding LoadBlob calls and ALL ok/err answer assignments (no deviation bound: the search is complete; FIFO policy only fixes the enumeration order; only the check mode of the quick tier is limited to 2 deviations from oldest-first/ok). non-trivial = an execution in which at least two loads were outstanding at the same scheduler step or a load was answered with an injected error. states = distinct complete schedules.")
+	r.Rule("GATE at the Loader: for every forged tree DAG (13 shapes, <= 8 trees), mode (find, find2, stream, check, walk) and connection count, ALL completion orders of the concurrently outstanding LoadBlob calls and ALL ok/err answer assignments (no deviation bound: the search is complete; FIFO policy only fixes the enumeration order; only the check mode of the quick tier is limited to 2 deviations from oldest-first/ok). non-trivial = an execution in which at least two loads were outstanding at the same scheduler step or a load was answered with an injected error. states = distinct complete schedules.")
 	r.Assume("the Loader is the only interaction with the repository; LookupBlobSize is pure", "goroutine interleaving between two loader events is the Go runtime's choice (GOMAXPROCS=1); filterTrees' select never has two ready cases at quiescence because one load is released per scheduler step")
 	// Connections() decides the size of the worker pool: conns + GOMAXPROCS(=1) normal workers + 1 huge-tree worker.
 	connsList := vh.Pick(r, []uint{0}, []uint{1, 2, 3, 5}) // 0 = the shape's own value (1 or 2)
@@ -1264,4 +1276,106 @@ func TestVerif_C42(t *testing.T) {
 	}
 	r.Extra("deviation_bound", vh.Pick(r, "none (complete); check mode: 2", "none (complete)"))
 	r.Extra("shapes", fmt.Sprint(len(shapes)))
+}
+
+// ---------- free-running -race pass ----------
+
+// verifC42FreeLoader serves the model's trees without any gate.
+type verifC42FreeLoader struct{ m *verifC42Model }
+
+func (l *verifC42FreeLoader) Connections() uint { return l.m.sh.conns }
+
+func (l *verifC42FreeLoader) LookupBlobSize(h restic.BlobHandle) (uint, bool) {
+	lab, ok := l.m.label[h.ID]
+	if !ok || h.Type != restic.TreeBlob || l.m.tree[lab].kind == "missing" {
+		return 0, false
+	}
+	if l.m.tree[lab].kind == "huge" {
+		return 50*1024*1024 + 1, true
+	}
+	return uint(len(l.m.raw[lab])), true
+}
+
+func (l *verifC42FreeLoader) LoadBlob(_ context.Context, h restic.BlobHandle, _ []byte) ([]byte, error) {
+	lab, ok := l.m.label[h.ID]
+	if !ok || h.Type != restic.TreeBlob || l.m.tree[lab].kind == "missing" {
+		return nil, &verifC42Err{label: h.String(), why: "blob not found"}
+	}
+	return append([]byte(nil), l.m.raw[lab]...), nil
+}
+
+// TestVerifRace_C42 runs the same bodies (FindUsedBlobs, StreamTrees) free for the race detector:
+// the gated exploration orders loader events only, accesses of the pool goroutines between two
+// loader events (e.g. a slice handed from a worker to filterTrees) are the race detector's business.
+// The used-blob set is compared with reachability as well.
+func TestVerifRace_C42(t *testing.T) {
+	r := vh.Start(t, "C42")
+	defer r.Finish()
+	shapes := verifC42Shapes()
+	for i := range shapes {
+		sh := shapes[i]
+		clean := true
+		for _, tr := range sh.trees {
+			if tr.kind != "" && tr.kind != "huge" {
+				clean = false
+			}
+		}
+		if !clean {
+			continue
+		}
+		for _, conns := range []uint{1, 3} {
+			sh.conns = conns
+			m := verifC42Build(&sh)
+			wantTrees, wantBlobs := m.reach(sh.roots, map[string]bool{}, false)
+			for round := 0; round < 10; round++ {
+				ld := &verifC42FreeLoader{m: m}
+				blobs := restic.NewBlobSet()
+				err := data.FindUsedBlobs(context.Background(), ld, m.rootIDs(sh.roots), blobs, &verifC42Counter{})
+				got := map[string]bool{}
+				for h := range blobs {
+					if h.Type == restic.TreeBlob {
+						got["T:"+m.lab(h.ID)] = true
+					} else {
+						got["D:"+h.ID.String()] = true
+					}
+				}
+				want := map[string]bool{}
+				for l := range wantTrees {
+					want["T:"+l] = true
+				}
+				for b := range wantBlobs {
+					want["D:"+verifC42DataID(b).String()] = true
+				}
+				if err != nil || verifC42Keys(got) != verifC42Keys(want) {
+					r.Violation("", "C42|free-running|find|"+sh.name, fmt.Sprintf("free-running pass, shape %s conns=%d: FindUsedBlobs err=%v\n got  %s\n want %s", sh.name, conns, err, verifC42Keys(got), verifC42Keys(want)), nil)
+				}
+				var mu sync.Mutex
+				seen := restic.NewBlobSet()
+				streamed := map[string]bool{}
+				err = data.StreamTrees(context.Background(), ld, m.rootIDs(sh.roots), &verifC42Counter{}, func(id restic.ID) bool {
+					h := restic.BlobHandle{ID: id, Type: restic.TreeBlob}
+					was := seen.Has(h)
+					seen.Insert(h)
+					return was
+				}, func(id restic.ID, err error, nodes data.TreeNodeIterator) error {
+					if err == nil {
+						for range nodes {
+						}
+					}
+					mu.Lock()
+					streamed["T:"+m.lab(id)] = true
+					mu.Unlock()
+					return nil
+				})
+				wantT := map[string]bool{}
+				for l := range wantTrees {
+					wantT["T:"+l] = true
+				}
+				if err != nil || verifC42Keys(streamed) != verifC42Keys(wantT) {
+					r.Violation("", "C42|free-running|stream|"+sh.name, fmt.Sprintf("free-running pass, shape %s conns=%d: StreamTrees err=%v\n got  %s\n want %s", sh.name, conns, err, verifC42Keys(streamed), verifC42Keys(wantT)), nil)
+				}
+				r.Eval(2)
+			}
+		}
+	}
 }
